@@ -56,14 +56,8 @@ func c17Judge(k c17Case) *vlib.Failure {
 				_ = e.Error()
 			}
 		}
-		if (err == nil) != (err2 == nil) {
-			return vlib.Failf("NewMiddleware (err=%v) and Reconfigure on the zero value (err=%v) disagree", err, err2)
-		}
 		if err == nil {
 			c1 := m.Config()
-			if c1 == nil {
-				return vlib.Failf("Config() of a configured middleware is nil")
-			}
 			_ = m.Reconfigure(c1)
 			_ = m2.Config()
 			// one request of each kind through the freshly built middleware
